@@ -26,7 +26,8 @@ WALL_LIMIT = {"quick": 1200, "thorough": 5 * 3600}
 PROBES = ["permutation_checked", "onsets_unordered_warning_expected", "handler_reused", "delay_group", "duration_group",
           "temporal_marker", "cell_with_defect", "row_equality_checked", "row_superset_checked", "na_cells", "no_onset_column",
           "spreadsheet_input_no_header", "tied_or_nonnumeric_onsets", "unit_spelling_variety", "cross_column_repeat",
-          "rejected_unit_spelling_kept_as_defect", "delay_lands_on_another_timepoint"]
+          "rejected_unit_spelling_kept_as_defect", "delay_lands_on_another_timepoint", "sidecar_object_shared",
+          "shared_sidecar_then_without_extra_definitions", "dataframe_with_non_default_row_labels", "warning_only_cell", "delayed_marker_unit_twin_checked"]
 RULE = ("Each run generates an events table (onset column with distinct numeric values; ties / non-numeric in a sub-batch; "
         "1-3 HED-bearing columns: HED column, categorical, value) whose cells are valid or carry one seeded defect (unknown tag, "
         "unbalanced parenthesis, empty element, repeated tag), with Delay/Duration groups in every unit spelling string "
@@ -76,11 +77,22 @@ STRUCT_CODES = {"SIDECAR_KEY_MISSING", "HED_MISSING_REQUIRED_COLUMN", "HED_UNKNO
 TEMPORAL_CODES = {"TEMPORAL_TAG_ERROR"}
 
 
+WARN_ONLY = ["red", "Item/Newthing", "blue", "Green/Greenish"]      # draw a warning, never an error
+
+
+# seconds per unit for spellings string validation accepts (SI prefixes of the schema; written down, not asked of the library)
+UNIT_FACTOR = {"s": 1.0, "ms": 1e-3, "second": 1.0, "seconds": 1.0, "millisecond": 1e-3, "milliseconds": 1e-3, "ks": 1e3,
+               "kilosecond": 1e3, "kiloseconds": 1e3, "minute": 60.0, "minutes": 60.0, "hour": 3600.0, "cs": 1e-2,
+               "centiseconds": 1e-2}
+
+
 def _valid_cell(g):
     n = g.randint(1, 3)
     parts = []
     for _ in range(n):
-        if g.chance(0.7):
+        if g.chance(0.12):
+            parts.append(g.pick(WARN_ONLY))
+        elif g.chance(0.7):
             parts.append(g.pick(PLAIN))
         else:
             parts.append("(%s)" % ", ".join(g.sample(PLAIN, g.randint(1, 3))))
@@ -128,6 +140,8 @@ def generate(run_index, seed, tier):
         sidecar["tt"] = {"HED": {"go": _valid_cell(g), "stop": _valid_cell(g)}}
         if g.chance(0.3):
             sidecar["tt"]["HED"]["bad"] = _defect_cell(g)[0]
+        if g.chance(0.35):
+            sidecar["tt"]["HED"]["defs"] = "(Definition/SCdef, (Blue))"     # the sidecar has a definition of its own
     if use_val:
         sidecar["val"] = {"HED": g.pick(["Label/#", "ID/#", "(Age/#, Face)"])}
     n = g.randint(2, 7)
@@ -142,6 +156,8 @@ def generate(run_index, seed, tier):
                 row[c] = "%g" % t
             elif c in ("HED", "tags", "more"):
                 x = g.random()
+                if r8 == 6 and has_onset and c == "HED" and x < 0.75:
+                    x = 0.99          # a sub-batch of files that are mostly Onset / (delayed) Offset markers
                 if x < 0.42:
                     row[c] = _valid_cell(g)
                 elif x < 0.45:
@@ -162,6 +178,13 @@ def generate(run_index, seed, tier):
                 elif has_onset and c == "HED":
                     if a_open and g.chance(0.6):
                         row[c] = "(Def/A, Offset)"
+                        if g.chance(0.7):
+                            # the Offset takes effect later, the delay written in some accepted unit spelling
+                            u = g.pick(sorted(UNIT_FACTOR) + ["milliseconds", "kiloseconds", "centiseconds", "ms"])
+                            d = g.pick([0.125, 0.25, 0.5, 1.0, 3.0])
+                            v = "%.12g" % (d / UNIT_FACTOR[u])
+                            if float(v) * UNIT_FACTOR[u] == d:
+                                row[c] = "(Def/A, Offset, Delay/%s %s)" % (v, u)
                         a_open = False
                     else:
                         row[c] = "(Def/A, Onset)" if g.chance(0.7) else "(Def/B/3, Onset)"
@@ -204,6 +227,10 @@ def generate(run_index, seed, tier):
         perms.append(idx)
     sc["perms"] = perms
     sc["reuse"] = [g.chance(0.5) for _ in range(len(perms) + 1)]
+    # one Sidecar object serves every file of the run (as one sidecar serves many recordings) or each gets its own
+    sc["share_sidecar"] = g.chance(0.5)
+    # row labels of the DataFrame handed in (a frame that was filtered / sorted before): issues name file rows regardless
+    sc["index"] = g.pick(["default", "default", "default", "reversed", "offset", "gaps"])
     return sc
 
 
@@ -246,7 +273,7 @@ def _key(i):
     return (i.get("code"), i.get("severity"), i.get("ec_row"), i.get("ec_column"))
 
 
-def _build(W, sc, rows):
+def _build(W, sc, rows, sidecar=None):
     pd = W["pd"]
     if sc["kind"] == "spreadsheet":
         p = os.path.join(W["base"], "sheet.tsv")
@@ -259,8 +286,18 @@ def _build(W, sc, rows):
         if not sc["header"]:
             tagcols = [sc["columns"].index(c) for c in tagcols]
         return W["SpreadsheetInput"](p, tag_columns=tagcols, has_column_names=sc["header"], name="sheet")
-    sidecar = W["Sidecar"](io.StringIO(json.dumps(sc["sidecar"]))) if sc["sidecar"] else None
-    return W["TabularInput"](pd.DataFrame(rows, columns=sc["columns"], dtype=str), sidecar=sidecar, name="events")
+    if sidecar is None:
+        sidecar = W["Sidecar"](io.StringIO(json.dumps(sc["sidecar"]))) if sc["sidecar"] else None
+    df = pd.DataFrame(rows, columns=sc["columns"], dtype=str)
+    n = len(df)
+    how = sc.get("index", "default")
+    if how == "reversed":
+        df.index = list(range(n - 1, -1, -1))
+    elif how == "offset":
+        df.index = list(range(10, 10 + n))
+    elif how == "gaps":
+        df.index = [3 * i + 1 for i in range(n)]
+    return W["TabularInput"](df, sidecar=sidecar, name="events")
 
 
 def _unit_accepted(W, cell):
@@ -301,6 +338,8 @@ def execute(sc, script=None):
                 probe("temporal_marker")
             if cell == "n/a":
                 probe("na_cells")
+            if any(w in [x.strip(" ()") for x in cell.split(",")] for w in WARN_ONLY):
+                probe("warning_only_cell")
     if len(units_seen) > 0:
         probe("unit_spelling_variety", len(units_seen))
     has_onset = "onset" in cols
@@ -313,9 +352,16 @@ def execute(sc, script=None):
     header_adj = 2 if (sc["kind"] == "tabular" or sc.get("header")) else 1
     handler = W["ErrorHandler"](check_for_warnings=True)
 
+    shared = None
+    if sc.get("share_sidecar") and sc["kind"] == "tabular" and sc["sidecar"]:
+        shared = W["Sidecar"](io.StringIO(json.dumps(sc["sidecar"])))
+        probe("sidecar_object_shared")
+    if sc["kind"] == "tabular" and sc.get("index", "default") != "default":
+        probe("dataframe_with_non_default_row_labels")
+
     def validate(rows, reuse, where):
         try:
-            inp = _build(W, sc, rows)
+            inp = _build(W, sc, rows, shared)
         except Exception as e:  # noqa
             viol("never-raises", "%s: constructing the input raised %s: %s" % (where, type(e).__name__, str(e)[:300]),
                  "construct-raises-%s" % type(e).__name__)
@@ -387,6 +433,36 @@ def execute(sc, script=None):
             viol("permutation", "rows in order %s (onsets %s): %d ONSETS_UNORDERED warnings, expected %d"
                  % (perm, on, n_warn, 1 if unordered else 0), "unordered-warning-count")
         del unordered0
+    # ---- unit spelling: the same file with every delayed marker's delay rewritten in seconds gives the same issues
+    import re as _re
+    pat = _re.compile(r"(Offset, Delay/)([0-9.eE+-]+) (\w+)\)")
+    if not violations and any(pat.search(c) and pat.search(c).group(3) != "s" for r in sc["rows"] for c in r):
+        def _canon(m):
+            return "%s%.12g s)" % (m.group(1), float(m.group(2)) * UNIT_FACTOR[m.group(3)])
+        twin = [[pat.sub(_canon, c) for c in r] for r in sc["rows"]]
+        _, tissues = validate(twin, False, "delays rewritten in seconds")
+        if tissues is not None:
+            probe("delayed_marker_unit_twin_checked")
+            ka, kb = sorted(map(str, map(_key, issues))), sorted(map(str, map(_key, tissues)))
+            if ka != kb:
+                viol("permutation", "the file with its marker delays written in seconds gives other issues: only as written %s, "
+                     "only in seconds %s\nrows %s" % ([x for x in ka if x not in kb][:6], [x for x in kb if x not in ka][:6], sc["rows"]),
+                     "unit-spelling-changes-issues")
+    if shared is not None and not violations:
+        # history independence of the shared Sidecar: after the calls above (which passed extra definitions) the same
+        # object is used without them; the answer must be the one a fresh Sidecar gives
+        try:
+            a = _build(W, sc, sc["rows"], shared).validate(W["schema"], error_handler=W["ErrorHandler"](True))
+            b = _build(W, sc, sc["rows"], None).validate(W["schema"], error_handler=W["ErrorHandler"](True))
+            probe("shared_sidecar_then_without_extra_definitions")
+            ka, kb = sorted(map(str, map(_key, a))), sorted(map(str, map(_key, b)))
+            if ka != kb:
+                viol("handler-reuse", "a Sidecar object used before with extra definitions, now without: issues %s; a fresh "
+                     "Sidecar gives %s" % ([x for x in ka if x not in kb][:6], [x for x in kb if x not in ka][:6]),
+                     "shared-sidecar-differs")
+        except Exception as e:  # noqa
+            viol("never-raises", "validate without extra definitions raised %s: %s" % (type(e).__name__, str(e)[:300]),
+                 "validate-raises-%s" % type(e).__name__)
     return _result(sc, violations, probes, trace, nontrivial)
 
 
